@@ -465,7 +465,15 @@ func (e *Engine) verifyFunc(fn *ssa.Function, spec *FuncSpec) (vc *VC, err error
 	_ = res
 	_ = out
 	// postconditions and frame are checked at every return separately (simpler queries than on the merged exit state)
-	for _, rt := range fr.rets {
+	for k, rt := range fr.rets {
+		// vacuity guard: a return the contract does not declare unreachable must be reachable under the
+		// assumptions made on the way to it (a contradictory callee contract would make it "verify")
+		if spec.DeadReturns[k] {
+			vc.oblige("unreachable", fmt.Sprintf("return~%d", k), rt.pc, "false", rt.pos, fmt.Sprintf("return %d declared unreachable", k))
+		} else if rt.pc != "false" {
+			vc.cover(fmt.Sprintf("return~%d", k), rt.pc)
+			vc.covers[len(vc.covers)-1].Where = vc.eng.prog.Fset.Position(rt.pos).String()
+		}
 		env2 := &Env{vc: vc, vars: withNamedResults(env.vars, fn.Signature.Results(), rt.vals), cur: rt.st, old: fr.entry, pkg: fn.Pkg, results: rt.vals}
 		// each postcondition may use the ones listed before it (they are proved separately for the same state)
 		var proved []string
